@@ -1,5 +1,5 @@
 (* Pinned statements of C01: re-checked on every run. *)
-From SF Require Import Base.Prelude Gen.Generated Unsized.Types Unsized.Parse Unsized.Machine Unsized.Ops Unsized.Run Unsized.Proofs.EncodeParse Unsized.Proofs.Mem Unsized.Proofs.Notify Unsized.Proofs.Flat Unsized.Proofs.Layout Unsized.Proofs.Observe Unsized.Proofs.Path Unsized.Proofs.Context Unsized.Proofs.FocusOps Unsized.Proofs.NotifyInside Unsized.Proofs.Resize Unsized.Proofs.GenOps Unsized.Proofs.History Unsized.Proofs.Init Unsized.Proofs.History2 Unsized.Proofs.ExecTie Properties.C01.
+From SF Require Import Base.Prelude Gen.Generated Unsized.Types Unsized.Parse Unsized.Machine Unsized.Ops Unsized.Run Unsized.Proofs.EncodeParse Unsized.Proofs.Mem Unsized.Proofs.Notify Unsized.Proofs.Flat Unsized.Proofs.Layout Unsized.Proofs.Observe Unsized.Proofs.Path Unsized.Proofs.Context Unsized.Proofs.FocusOps Unsized.Proofs.NotifyInside Unsized.Proofs.Resize Unsized.Proofs.GenOps Unsized.Proofs.History Unsized.Proofs.Init Unsized.Proofs.History2 Unsized.Proofs.ExecTie Unsized.Proofs.ExecTie2 Unsized.Proofs.Keyed Unsized.Proofs.NotifyInside2 Unsized.Proofs.SetData Unsized.Proofs.History3 Properties.C01.
 
 Check (C01_flat_step_refines :
   forall ts vs s top o vs',
@@ -93,6 +93,84 @@ Check (C01_dispatcher_tie :
     (exists X xv, resolve t v (focus_of o) = Some (X, xv) /\ (exists c lw, X = TList c lw)) ->
     mstepG ovf t s top o = Ok r ->
     forall fuel, (length (focus_of o) < fuel)%nat -> exec fuel ovf t s top [] (enc_op o) = Ok r).
+Check (C01_dispatcher_tie_all_ops :
+  forall ovf t v s top o r,
+    RepF [] t v s top -> (exists v', ostepX (m_cap s) t v o = Some v') ->
+    mstepX ovf t s top o = Ok r ->
+    forall fuel, (length (xfocus o) < fuel)%nat -> exec fuel ovf t s top [] (enc_xop o) = Ok r).
+Check (C01_set_data_refines :
+  forall ovf pi t v X xv xv' s top,
+    resolve t v pi = Some (X, xv) -> headed X = true -> wf X xv' = true -> 0 < zlen (encode X xv) ->
+    RepF pi t v s top -> m_refuse s <> 1 -> m_len s + (zlen (encode X xv') - zlen (encode X xv)) <= m_cap s ->
+    exists s' top', set_data ovf t s top (mpath pi) (zlen (encode X xv')) (Ok (encode X xv')) = Ok (s', top', []) /\
+                    RepF pi t (plug t v pi xv') s' top' /\ m_cap s' = m_cap s /\ m_refuse s' = m_refuse s).
+Check (C01_keyed_lower_bound :
+  forall keys k, strictly_ascending keys = true ->
+    let '(idx, found) := lower_bound keys k 0 in
+    0 <= idx <= zlen keys /\ Forall (fun x => x < k) (firstn (Z.to_nat idx) keys) /\
+    Forall (fun x => k <= x) (skipn (Z.to_nat idx) keys) /\
+    (found = true <-> nth_error keys (Z.to_nat idx) = Some k) /\ (found = false -> ~ In k keys)).
+Check (C01_keyed_set_insert :
+  forall pi t v c lw items x,
+    resolve t v (pi ++ [SF 0]) = Some (TList c lw, VList items) ->
+    strictly_ascending (map le_decode items) = true ->
+    forall s top idx,
+    RepF (pi ++ [SF 0]) t v s top -> item_ok c x ->
+    lower_bound (map le_decode items) (le_decode x) 0 = (idx, false) ->
+    m_refuse s <> 1 -> m_len s + Z.of_nat (fsize c) <= m_cap s ->
+    zlen items + 1 < 256 ^ Z.of_nat lw -> Z.of_nat (fsize c) * (zlen items + 1) < U64_LIMIT ->
+    let items' := firstn (Z.to_nat idx) items ++ x :: skipn (Z.to_nat idx) items in
+    exists s' top',
+      set_insert_op t s top (mpath pi) c lw x = Ok (s', top', [1]) /\
+      RepF (pi ++ [SF 0]) t (plug t v (pi ++ [SF 0]) (VList items')) s' top' /\
+      m_cap s' = m_cap s /\ m_refuse s' = m_refuse s /\ strictly_ascending (map le_decode items') = true).
+Check (C01_keyed_map_overwrite :
+  forall pi t v c lw items key,
+    resolve t v (pi ++ [SF 0]) = Some (TList c lw, VList items) ->
+    strictly_ascending (lkeys (length key) items) = true ->
+    forall value, item_ok c (key ++ value) ->
+    forall s top idx,
+    RepF (pi ++ [SF 0]) t v s top ->
+    lower_bound (lkeys (length key) items) (le_decode key) 0 = (idx, true) ->
+    let items' := firstn (Z.to_nat idx) items ++ (key ++ value) :: skipn (S (Z.to_nat idx)) items in
+    exists s',
+      map_insert_op t s top (mpath pi) c lw key value = Ok (s', top, [1]) /\
+      RepF (pi ++ [SF 0]) t (plug t v (pi ++ [SF 0]) (VList items')) s' top /\
+      m_cap s' = m_cap s /\ m_refuse s' = m_refuse s /\
+      lkeys (length key) items' = lkeys (length key) items /\ strictly_ascending (lkeys (length key) items') = true).
+Check (C01_keyed_unsized_map_insert :
+  forall pi t v it k items key,
+    resolve t v (pi ++ [SF 0]) = Some (TUList it k, VUList items) -> k <> 0%nat ->
+    forall ovf s top idx,
+    RepF (pi ++ [SF 0]) t v s top -> zero_ok it = true -> 0 <= key < 256 ^ Z.of_nat k ->
+    lower_bound (ukeys items) key 0 = (idx, false) ->
+    m_refuse s <> 1 -> m_len s + (zlen (encode it (dflt it)) + (4 + Z.of_nat k)) <= m_cap s ->
+    let items' := firstn (Z.to_nat idx) items ++ (le_bytes k key, dflt it) :: skipn (Z.to_nat idx) items in
+    exists s' top',
+      umap_insert_op ovf t s top (mpath pi) it k key 0 = Ok (s', top', [1]) /\
+      RepF (pi ++ [SF 0]) t (plug t v (pi ++ [SF 0]) (VUList items')) s' top' /\
+      m_cap s' = m_cap s /\ m_refuse s' = m_refuse s /\ strictly_ascending (ukeys items') = true).
+Check (C01_keyed_unsized_map_remove :
+  forall pi t v it k items key,
+    resolve t v (pi ++ [SF 0]) = Some (TUList it k, VUList items) -> k <> 0%nat ->
+    forall s top idx,
+    RepF (pi ++ [SF 0]) t v s top -> lower_bound (ukeys items) key 0 = (idx, true) ->
+    let items' := firstn (Z.to_nat idx) items ++ skipn (Z.to_nat (idx + 1)) items in
+    exists s' top',
+      umap_remove_op t s top (mpath pi) k key = Ok (s', top', [1]) /\
+      RepF (pi ++ [SF 0]) t (plug t v (pi ++ [SF 0]) (VUList items')) s' top' /\
+      m_cap s' = m_cap s /\ m_refuse s' = m_refuse s /\ strictly_ascending (ukeys items') = true).
+Check (C01_full_step_refines :
+  forall ovf t v s top pi0 o v' obs,
+    RepF pi0 t v s top -> m_refuse s <> 1 -> ostepY (m_cap s) t v o = Some (v', obs) ->
+    exists s' top' pi', mstepY ovf t s top o = Ok (s', top', obs) /\ RepF pi' t v' s' top' /\
+                        m_cap s' = m_cap s /\ m_refuse s' = m_refuse s).
+Check (C01_full_run_refines :
+  forall ovf t h v s top pi0 v' obss,
+    RepF pi0 t v s top -> m_refuse s <> 1 -> orunY (m_cap s) t v h = Some (v', obss) ->
+    exists s' top' pi', mrunY ovf t s top h = Ok (s', top', obss) /\ RepF pi' t v' s' top' /\ m_cap s' = m_cap s).
+Check (C01_keyed_views_stay_sorted :
+  forall cap t v o v' obs, ostepY cap t v o = Some (v', obs) -> sorted_view t v o /\ sorted_view t v' o).
 
 Print Assumptions C01_flat_step_refines.
 Print Assumptions C01_flat_run_refines.
@@ -112,3 +190,13 @@ Print Assumptions C01_general_reborrow.
 Print Assumptions C01_all_ops_step_refines.
 Print Assumptions C01_all_ops_run_refines.
 Print Assumptions C01_dispatcher_tie.
+Print Assumptions C01_dispatcher_tie_all_ops.
+Print Assumptions C01_set_data_refines.
+Print Assumptions C01_keyed_lower_bound.
+Print Assumptions C01_keyed_set_insert.
+Print Assumptions C01_keyed_map_overwrite.
+Print Assumptions C01_keyed_unsized_map_insert.
+Print Assumptions C01_keyed_unsized_map_remove.
+Print Assumptions C01_full_step_refines.
+Print Assumptions C01_full_run_refines.
+Print Assumptions C01_keyed_views_stay_sorted.
